@@ -265,6 +265,9 @@ func parseFirst(b *Blob) (d *Doc, rest *Blob, errMsg string) {
 		}
 	}()
 	d = c.value()
+	if b.bk != nil {
+		d.setBacking(b.bk, b.bgen)
+	}
 	var rs []BSeg
 	if c.si < len(c.segs) {
 		s := c.segs[c.si]
@@ -1274,7 +1277,11 @@ func init() {
 		if p == nil {
 			return g.mkError(S("json.RawMessage: UnmarshalJSON on nil pointer"), Iface{})
 		}
-		store(p, a[1])
+		if b, ok := a[1].(*Blob); ok && b != nil && b.bk != nil {
+			store(p, &Blob{Segs: b.Segs}) // append((*m)[0:0], data...) copies
+		} else {
+			store(p, a[1])
+		}
 		return Iface{}
 	})
 }
